@@ -26,22 +26,24 @@ Proof. exact done_stopped. Qed.
    the join handle the actor has fully stopped (status Stopped; name, pid and group
    entries removed; post_stop not running and, when the cause runs it, left; children
    signalled; supervisor event enqueued when there is a supervisor) — every exit cause *)
-Theorem C06_no_early_return : forall s0 ws c sup ks ls w,
+Theorem C06_no_early_return : forall s0 ws c sup ks r ls w,
   init_ok s0 ws ->
-  let s := run ls (scenario_init_k s0 ws c sup ks) in
+  let s := run ls (scenario_init_k s0 ws c sup ks r) in
   (nth_error (wpcs s) w = Some WDone \/ nth_error (wpcs s) w = Some WJDone) ->
   fully_stopped (want_ps_of c) (want_sup_of c sup) (snapshot s) = true.
 Proof. exact early_return_full. Qed.
 
-(* (1c) children: `ks` are the statuses of the children linked to the actor when it exits
+(* (`r` = the actor has a remote ActorId: it never has a name or pid entry; its group memberships
+   are dropped by the same cleanup block)
+   (1c) children: `ks` are the statuses of the children linked to the actor when it exits
    (Running, Draining — drain requested, still busy —, Stopping, ...).  Once terminate() has
    run, in particular whenever a wait has returned, every one of them has been sent the kill
    signal unless it was already Stopping/Stopped: a Draining child IS signalled.  Holds for
    any number of threads and programs; `fully_stopped` above includes it (sn_children). *)
-Theorem C06_children_signalled : forall s0 ws progs ks ls,
-  let s := run ls (mk_init_k s0 ws progs ks) in
+Theorem C06_children_signalled : forall s0 ws progs ks r ls,
+  let s := run ls (mk_init_k s0 ws progs ks r) in
   0 < n_term (gh s) -> forallb kid_ok (kids (gh s)) = true.
-Proof. intros s0 ws progs ks ls s. apply (kids_inv_run ls _ (kids_inv_init s0 ws progs ks)). Qed.
+Proof. intros s0 ws progs ks r ls s. apply (kids_inv_run ls _ (kids_inv_init s0 ws progs ks r)). Qed.
 
 (* (2) no lost wake-up: once the exit has completed, a waiter that cannot move has
    returned (or reported its timeout) — for any number of waiters and every interleaving
@@ -135,23 +137,23 @@ Qed.
 
 (* (6) the executable oracle accepts every run of the model (it cannot raise a false alarm
    on model-conforming behaviour); with the completeness flag when the run is maximal *)
-Theorem C06_oracle_sound : forall s0 ws c sup ks ls,
+Theorem C06_oracle_sound : forall s0 ws c sup ks r ls,
   init_ok s0 ws ->
-  check_C06 (want_ps_of c) (want_sup_of c sup) false (observe ls (scenario_init_k s0 ws c sup ks)) = true.
+  check_C06 (want_ps_of c) (want_sup_of c sup) false (observe ls (scenario_init_k s0 ws c sup ks r)) = true.
 Proof. exact oracle_sound. Qed.
 
-Theorem C06_oracle_sound_complete : forall s0 ws c sup ks ls,
+Theorem C06_oracle_sound_complete : forall s0 ws c sup ks r ls,
   init_ok s0 ws ->
-  let s := run ls (scenario_init_k s0 ws c sup ks) in
+  let s := run ls (scenario_init_k s0 ws c sup ks r) in
   threads_done s = true -> status s = Stopped ->
   (forall w p, nth_error (wpcs s) w = Some p -> can_move s p = false) ->
-  check_C06 (want_ps_of c) (want_sup_of c sup) true (observe ls (scenario_init_k s0 ws c sup ks)) = true.
+  check_C06 (want_ps_of c) (want_sup_of c sup) true (observe ls (scenario_init_k s0 ws c sup ks r)) = true.
 Proof. exact oracle_sound_complete. Qed.
 
 (* ---- statement pins ---- *)
-Check (C06_no_early_return : forall s0 ws c sup ks ls w,
+Check (C06_no_early_return : forall s0 ws c sup ks r ls w,
   init_ok s0 ws ->
-  let s := run ls (scenario_init_k s0 ws c sup ks) in
+  let s := run ls (scenario_init_k s0 ws c sup ks r) in
   (nth_error (wpcs s) w = Some WDone \/ nth_error (wpcs s) w = Some WJDone) ->
   fully_stopped (want_ps_of c) (want_sup_of c sup) (snapshot s) = true).
 Check (C06_no_lost_wakeup : forall s0 ws progs ls w p,
@@ -174,18 +176,18 @@ Check (C06_status_monotone : forall s l1 l2,
 Definition ex_ops : list op :=
   [OpStart 0; OpOpen 0; OpSettle; OpStart 1; OpStart 3; OpSettle; OpOpen 1; OpSettle; OpStart 2; OpSettle].
 Example ex_before_during_after :
-  map (fun o => (o_w o, o_out o)) (run_scenario Running [W0; W0; W0; WJoin] CStop true [] ex_ops)
+  map (fun o => (o_w o, o_out o)) (run_scenario Running [W0; W0; W0; WJoin] CStop true [] false ex_ops)
   = [(0, ORet); (1, ORet); (3, OJoin); (2, ORet)]%nat
-  /\ check_C06 true true true (run_scenario Running [W0; W0; W0; WJoin] CStop true [] ex_ops) = true.
+  /\ check_C06 true true true (run_scenario Running [W0; W0; W0; WJoin] CStop true [] false ex_ops) = true.
 Proof. split; vm_compute; reflexivity. Qed.
 
 (* children of every kind: a Draining child is signalled (second component true), a Stopping one
    is left to its own exit; the waiter's snapshot says children = true *)
 Example ex_children :
   let s := run (sched [OpStart 0; OpOpen 0; OpOpen 1; OpSettle])
-               (scenario_init_k Running [W0] CStop true [Running; Draining; Stopping]) in
+               (scenario_init_k Running [W0] CStop true [Running; Draining; Stopping] false) in
   kids (gh s) = [(Running, true); (Draining, true); (Stopping, false)]
-  /\ run_scenario Running [W0] CStop true [Running; Draining; Stopping] [OpStart 0; OpOpen 0; OpOpen 1; OpSettle]
+  /\ run_scenario Running [W0] CStop true [Running; Draining; Stopping] false [OpStart 0; OpOpen 0; OpOpen 1; OpSettle]
      = [mkObs 0 ORet (mkSnap Stopped false false false false true true true)].
 Proof. split; vm_compute; reflexivity. Qed.
 
@@ -211,7 +213,7 @@ Proof. vm_compute. repeat split; reflexivity. Qed.
 (* a waiter polled from inside its waker, i.e. in the middle of notify_waiters() on the exit
    thread (before notify_one): it already sees the fully stopped state *)
 Example ex_eager :
-  run_scenario Running [W0] CStop true [] [OpStartEager 0; OpOpen 0; OpOpen 1; OpSettle]
+  run_scenario Running [W0] CStop true [] false [OpStartEager 0; OpOpen 0; OpOpen 1; OpSettle]
   = [mkObs 0 ORet (mkSnap Stopped false false false false true true true)]
   /\ (let s := run ([LW 0; LW 0; LW 0; LW 0; LOpen 0; LOpen 1] ++ repeat_l [LA 0] 14 ++ [LW 0])%nat
                    (scenario_init Running [W0] CStop true) in
@@ -222,7 +224,7 @@ Proof. vm_compute. repeat split; reflexivity. Qed.
    status check; a timed-out waiter is reported as such and the actor is untouched *)
 Example ex_timeout :
   map (fun o => (o_w o, o_out o))
-      (run_scenario Running [W0; W0] CKill false [] [OpStart 0; OpStart 1; OpSettle; OpTimeout 0; OpSettle; OpOpen 0; OpSettle])
+      (run_scenario Running [W0; W0] CKill false [] false [OpStart 0; OpStart 1; OpSettle; OpTimeout 0; OpSettle; OpOpen 0; OpSettle])
   = [(0, OTimeout); (1, ORet)]%nat.
 Proof. vm_compute; reflexivity. Qed.
 
